@@ -7,4 +7,5 @@ pub mod points;
 pub mod ops;
 pub mod ops2;
 pub mod proj;
+pub mod pure;
 pub mod replay;
